@@ -167,4 +167,30 @@ def reallocDelta (origin new : Workload) : Workload :=
   { cpuReq := new.cpuReq - origin.cpuReq, cpuLim := new.cpuLim - origin.cpuLim, memReq := new.memReq - origin.memReq,
     memLim := new.memLim, cpuMap := mapSub new.cpuMap origin.cpuMap, numaMem := mapSub new.numaMem origin.numaMem, numa := new.numa }
 
+/-- `EngineParams` (CPU in thousandths) -/
+structure EngineParams where
+  cpu : Int
+  mem : Int
+  cpuMap : CpuMap := []
+  numa : String := ""
+  remap : Bool := false
+  deriving Repr, DecidableEq, Inhabited
+
+/-- the engine parameters `CalculateDeploy` / `CalculateRealloc` hand out next to a workload resource:
+    CPU = recorded CPU limit, Memory = recorded memory limit, CPU map and NUMA node as recorded -/
+def engineOf (w : Workload) : EngineParams :=
+  { cpu := w.cpuLim, mem := w.memLim, cpuMap := w.cpuMap, numa := w.numa }
+
+/-- committing a re-allocation the way the cluster does: `usage += delta` (`SetNodeResourceUsage` with
+    the delta resource, delta + incr), then `Validate` on write -/
+def commitRealloc (info : NodeInfo) (origin new : Workload) : Outcome NodeInfo :=
+  commit info [reallocDelta origin new]
+
+/-- `CalculateRemap`: unbound workloads get the shared cores (free pieces ≥ one share; all cores if none) -/
+def calculateRemap (info : NodeInfo) (B : Int) (ws : List (String × Workload)) : List (String × EngineParams) :=
+  let shared := (info.available.cpuMap.filter fun kv => decide (B ≤ kv.2)).map fun kv => (kv.1, B)
+  let shared := if shared.isEmpty then info.cap.cpuMap.map fun kv => (kv.1, B) else shared
+  (ws.filter fun iw => iw.2.cpuMap.isEmpty).map fun iw =>
+    (iw.1, { cpu := iw.2.cpuLim, mem := iw.2.memLim, cpuMap := shared, numa := iw.2.numa, remap := true })
+
 end Eru.CpuMem
